@@ -1,0 +1,283 @@
+//go:build verif
+
+package topic
+
+// Contracts for the govc verifier (/verif). This file contains comments only
+// and is compiled only with -tags verif; it adds no declarations.
+//
+// isnode is the ghost footprint of the trie: the set of node objects that
+// were created by newNode. wf() is the structural invariant of that set
+// (children maps exist, children are nodes), so that the recursive walkers
+// never dereference nil. Every field of a node is accessed only while the
+// tree's mutex is held: the recursive helpers require it (mode 2 for the
+// mutators, at least 1 for the queries) and the public methods are single
+// critical sections, so each operation is atomic with respect to the tree for
+// every schedule (monitor argument) and no access races.
+//
+//@ ghost isnode map[ref]bool
+//@ global topicEnd [value] len(topicEnd) == 1 && topicEnd[0] == 0
+//@ guarded_by Tree.mutex: Tree.root
+//@ writers Tree.separator: NewTree
+//@ writers Tree.wildcardOne: NewTree
+//@ writers Tree.wildcardSome: NewTree
+//@ writers Tree.root: NewTree, (*Tree).Reset
+//
+//@ spec pred wf() = forall n *node {isnode[n]} :: isnode[n] ==> n != nil && n.children != nil && forall s string {n.children[s]} :: has(n.children, s) ==> n.children[s] != nil && isnode[n.children[s]]
+//@ spec pred tree_ok(t *Tree) = t.root != nil && isnode[t.root] && wf()
+// A slice is a snapshot if it shares its array with no node's value list.
+//@ spec pred snapshot(r []interface{}) = arr(r) == 0 || forall n *node {n.values} :: isnode[n] ==> arr(n.values) != arr(r)
+//
+//@ func newNode() (n *node)
+//@   ensures [node] n != nil && fresh(n) && isnode[n] && n.children != nil && fresh(n.children) && len(n.children) == 0 && len(n.values) == 0 && arr(n.values) == 0
+//@   ensures [empty] forall s string {n.children[s]} :: !has(n.children, s)
+//@   ensures [others] forall m *node {isnode[m]} :: m != n ==> (isnode[m] <==> old(isnode[m]))
+//@   ghostset isnode[n] := true
+//@   modifies isnode
+//
+// The callback type of match/search: called only with a non-empty value list;
+// whatever it does, it leaves the trie's structure intact.
+//@ functype "func([]interface{}) bool" (values []interface{}) (cont bool)
+//@   requires [nonempty] len(values) > 0
+//@   ensures [wf] old(wf()) ==> wf()
+//@   ensures [config] forall tr *Tree {tr.root} :: tr.root == old(tr.root) && tr.separator == old(tr.separator) && tr.wildcardOne == old(tr.wildcardOne) && tr.wildcardSome == old(tr.wildcardSome)
+//@   ensures [children-kept] forall n *node {n.children} :: old(isnode[n]) ==> n.children == old(n.children)
+//@   modifies heap
+//
+// ---------------------------------------------------------------- value lists of one node
+//
+//@ func (n *node) removeValue(value interface{})
+//@   ensures [len] len(n.values) == old(len(n.values)) || len(n.values) == old(len(n.values)) - 1
+//@   ensures [array] arr(n.values) == old(arr(n.values)) && off(n.values) == old(off(n.values))
+//@   ensures [removed-one] len(n.values) == old(len(n.values)) - 1 ==> exists p int {old(n.values[p])} :: 0 <= p && p < old(len(n.values)) && old(n.values[p]) == value && (forall i int {n.values[i]} :: 0 <= i && i < len(n.values) && i != p ==> n.values[i] == old(n.values[i])) && (p < len(n.values) ==> n.values[p] == old(n.values[len(n.values) - 1]))
+//@   ensures [absent-kept] (forall i int {old(n.values[i])} :: 0 <= i && i < old(len(n.values)) ==> old(n.values[i]) != value) ==> n.values == old(n.values)
+//@   modifies n.values, elems(n.values)
+//@   loop 1 invariant [scan] 0 <= rangeindex + 1 && rangeindex + 1 <= len(n.values) && n.values == old(n.values) && forall i int {n.values[i]} :: 0 <= i && i <= rangeindex ==> n.values[i] != value
+//@ func (n *node) clearValues()
+//@   ensures len(n.values) == 0 && fresh(n.values)
+//@   modifies n.values
+//
+//@ func contains(list []interface{}, value interface{}) (found bool)
+//@   ensures [found] found <==> exists i int {list[i]} :: 0 <= i && i < len(list) && list[i] == value
+//@   modifies nothing
+//@   loop 1 invariant [scan] 0 <= rangeindex + 1 && rangeindex + 1 <= len(list) && forall i int {list[i]} :: 0 <= i && i <= rangeindex ==> list[i] != value
+//
+// clean de-duplicates in place: the result is a prefix of the same array,
+// duplicate-free, every element of it occurs in the input, and every element
+// of the input occurs in it.
+//@ func (t *Tree) clean(values []interface{}) (result []interface{})
+//@   ensures [same-array] arr(result) == arr(values) && off(result) == off(values) && len(result) <= len(values)
+//@   ensures [distinct] forall i int, j int {result[i], result[j]} :: 0 <= i && i < j && j < len(result) ==> result[i] != result[j]
+//@   ensures [sound] forall i int {result[i]} :: 0 <= i && i < len(result) ==> exists k int {old(values[k])} :: 0 <= k && k < len(values) && old(values[k]) == result[i]
+//@   ensures [complete] forall k int {old(values[k])} :: 0 <= k && k < len(values) ==> exists i int {result[i]} :: 0 <= i && i < len(result) && result[i] == old(values[k])
+//@   modifies elems(values)
+//@   hint forward-frames
+//@   loop 1 invariant [pos] 0 <= rangeindex + 1 && rangeindex + 1 <= len(values) && arr(result) == arr(values) && off(result) == off(values) && len(result) <= rangeindex + 1 && cap(result) == cap(values)
+//@   loop 1 invariant [rest] forall k int {values[k]} :: rangeindex < k && k < len(values) ==> values[k] == old(values[k])
+//@   loop 1 invariant [distinct] forall i int, j int {result[i], result[j]} :: 0 <= i && i < j && j < len(result) ==> result[i] != result[j]
+//@   loop 1 invariant [sound] forall i int {result[i]} :: 0 <= i && i < len(result) ==> exists k int {old(values[k])} :: 0 <= k && k <= rangeindex && old(values[k]) == result[i]
+//@   loop 1 invariant [complete] forall k int {old(values[k])} :: 0 <= k && k <= rangeindex ==> exists i int {result[i]} :: 0 <= i && i < len(result) && result[i] == old(values[k])
+
+// ---------------------------------------------------------------- level splitting
+//
+//@ func topicShorten(topic string, separator string) (r string)
+//@   requires [sep] len(separator) >= 1
+//@   modifies nothing
+//@ func topicSegment(topic string, separator string) (r string)
+//@   requires [sep] len(separator) >= 1
+//@   ensures [len] len(r) <= len(topic)
+//@   modifies nothing
+
+// ---------------------------------------------------------------- recursive walkers (called with the mutex held)
+//
+//@ spec pred std(t *Tree) = len(t.separator) >= 1
+//
+//@ func (t *Tree) add(value interface{}, topic string, node *node)
+//@   requires [locked] held[t.mutex] == 2 && std(t)
+//@   requires [node] isnode[node] && wf()
+//@   ensures [wf] wf() && forall m *node {isnode[m]} :: old(isnode[m]) ==> isnode[m]
+//@   ensures [config] forall tr *Tree {tr.root} :: tr.root == old(tr.root) && tr.separator == old(tr.separator) && tr.wildcardOne == old(tr.wildcardOne) && tr.wildcardSome == old(tr.wildcardSome)
+//@   ensures [children-kept] forall n *node {n.children} :: old(isnode[n]) ==> n.children == old(n.children)
+//@   modifies heap, isnode
+//@   loop 1 invariant [range] 0 <= rangeindex + 1 && rangeindex + 1 <= len(node.values) && wf() && (forall m *node {isnode[m]} :: old(isnode[m]) ==> isnode[m]) && (forall tr *Tree {tr.root} :: tr.root == old(tr.root) && tr.separator == old(tr.separator) && tr.wildcardOne == old(tr.wildcardOne) && tr.wildcardSome == old(tr.wildcardSome)) && (forall n *node {n.children} :: old(isnode[n]) ==> n.children == old(n.children))
+//@ func (t *Tree) set(value interface{}, topic string, node *node)
+//@   requires [locked] held[t.mutex] == 2 && std(t)
+//@   requires [node] isnode[node] && wf()
+//@   ensures [wf] wf() && forall m *node {isnode[m]} :: old(isnode[m]) ==> isnode[m]
+//@   ensures [config] forall tr *Tree {tr.root} :: tr.root == old(tr.root) && tr.separator == old(tr.separator) && tr.wildcardOne == old(tr.wildcardOne) && tr.wildcardSome == old(tr.wildcardSome)
+//@   ensures [children-kept] forall n *node {n.children} :: old(isnode[n]) ==> n.children == old(n.children)
+//@   modifies heap, isnode
+//@ func (t *Tree) get(topic string, node *node) (r []interface{})
+//@   requires [locked] held[t.mutex] >= 1 && std(t)
+//@   requires [node] isnode[node] && wf()
+//@   ensures [snapshot] snapshot(r)
+//@   modifies nothing
+//@ func (t *Tree) remove(value interface{}, topic string, node *node) (empty bool)
+//@   requires [locked] held[t.mutex] == 2 && std(t)
+//@   requires [node] isnode[node] && wf()
+//@   ensures [wf] wf() && forall m *node {isnode[m]} :: old(isnode[m]) ==> isnode[m]
+//@   ensures [config] forall tr *Tree {tr.root} :: tr.root == old(tr.root) && tr.separator == old(tr.separator) && tr.wildcardOne == old(tr.wildcardOne) && tr.wildcardSome == old(tr.wildcardSome)
+//@   ensures [children-kept] forall n *node {n.children} :: old(isnode[n]) ==> n.children == old(n.children)
+//@   modifies heap
+//@ func (t *Tree) clear(value interface{}, node *node) (empty bool)
+//@   requires [locked] held[t.mutex] == 2
+//@   requires [node] isnode[node] && wf()
+//@   ensures [wf] wf()
+//@   ensures [config] forall tr *Tree {tr.root} :: tr.root == old(tr.root) && tr.separator == old(tr.separator) && tr.wildcardOne == old(tr.wildcardOne) && tr.wildcardSome == old(tr.wildcardSome)
+//@   ensures [children-kept] forall n *node {n.children} :: old(isnode[n]) ==> n.children == old(n.children)
+//@   modifies heap
+//@   loop 1 invariant [wf] wf() && isnode[node] && (forall tr *Tree {tr.root} :: tr.root == old(tr.root) && tr.separator == old(tr.separator) && tr.wildcardOne == old(tr.wildcardOne) && tr.wildcardSome == old(tr.wildcardSome)) && (forall n *node {n.children} :: old(isnode[n]) ==> n.children == old(n.children))
+//@ func (t *Tree) count(node *node) (n int)
+//@   requires [locked] held[t.mutex] >= 1
+//@   requires [node] isnode[node] && wf()
+//@   wrapping
+//@   modifies nothing
+//@ func (t *Tree) all(result []interface{}, node *node) (r []interface{})
+//@   requires [locked] held[t.mutex] >= 1
+//@   requires [node] isnode[node] && wf()
+//@   requires [own] snapshot(result)
+//@   ensures [own] snapshot(r)
+//@   ensures [array] fresh(r) || (arr(r) == arr(result) && off(r) == off(result) && cap(r) == cap(result))
+//@   modifies elems(result[0:cap(result)])
+//@   loop 1 invariant [own] snapshot(result) && wf() && isnode[node] && (fresh(result) || (arr(result) == arr(entry(result)) && off(result) == off(entry(result)) && cap(result) == cap(entry(result))))
+//
+//@ func (t *Tree) match(topic string, node *node, fn func([]interface{}) bool)
+//@   requires [locked] held[t.mutex] >= 1 && std(t)
+//@   requires [node] isnode[node] && wf() && fn != nil
+//@   ensures [wf] wf()
+//@   ensures [config] forall tr *Tree {tr.root} :: tr.root == old(tr.root) && tr.separator == old(tr.separator) && tr.wildcardOne == old(tr.wildcardOne) && tr.wildcardSome == old(tr.wildcardSome)
+//@   ensures [children-kept] forall n *node {n.children} :: old(isnode[n]) ==> n.children == old(n.children)
+//@   calls fn
+//@   modifies nothing
+//@ func (t *Tree) search(topic string, node *node, fn func([]interface{}) bool)
+//@   requires [locked] held[t.mutex] >= 1 && std(t)
+//@   requires [node] isnode[node] && wf() && fn != nil
+//@   ensures [wf] wf()
+//@   ensures [config] forall tr *Tree {tr.root} :: tr.root == old(tr.root) && tr.separator == old(tr.separator) && tr.wildcardOne == old(tr.wildcardOne) && tr.wildcardSome == old(tr.wildcardSome)
+//@   ensures [children-kept] forall n *node {n.children} :: old(isnode[n]) ==> n.children == old(n.children)
+//@   calls fn
+//@   modifies nothing
+//@   loop 1 invariant [wf] wf() && isnode[node] && (forall tr *Tree {tr.root} :: tr.root == old(tr.root) && tr.separator == old(tr.separator) && tr.wildcardOne == old(tr.wildcardOne) && tr.wildcardSome == old(tr.wildcardSome)) && (forall n *node {n.children} :: old(isnode[n]) ==> n.children == old(n.children))
+//@   loop 2 invariant [wf] wf() && isnode[node] && (forall tr *Tree {tr.root} :: tr.root == old(tr.root) && tr.separator == old(tr.separator) && tr.wildcardOne == old(tr.wildcardOne) && tr.wildcardSome == old(tr.wildcardSome)) && (forall n *node {n.children} :: old(isnode[n]) ==> n.children == old(n.children))
+
+// ---------------------------------------------------------------- public methods: one critical section each
+//
+//@ func NewTree(separator string, wildcardOne string, wildcardSome string) (t *Tree)
+//@   requires [wf] wf()
+//@   ensures [tree] t != nil && fresh(t) && tree_ok(t) && held[t.mutex] == 0 && t.separator == separator && t.wildcardOne == wildcardOne && t.wildcardSome == wildcardSome
+//@   modifies isnode
+//@ func (t *Tree) Add(topic string, value interface{})
+//@   requires [unlocked] held[t.mutex] == 0
+//@   requires [tree] tree_ok(t) && std(t)
+//@   ensures [tree] tree_ok(t)
+//@   ensures [released] held == old(held)
+//@   modifies heap, isnode, held
+//@ func (t *Tree) Set(topic string, value interface{})
+//@   requires [unlocked] held[t.mutex] == 0
+//@   requires [tree] tree_ok(t) && std(t)
+//@   ensures [tree] tree_ok(t)
+//@   ensures [released] held == old(held)
+//@   modifies heap, isnode, held
+//@ func (t *Tree) Get(topic string) (r []interface{})
+//@   requires [unlocked] held[t.mutex] == 0
+//@   requires [tree] tree_ok(t) && std(t)
+//@   ensures [snapshot] snapshot(r)
+//@   ensures [released] held == old(held)
+//@   modifies held
+//@ func (t *Tree) Remove(topic string, value interface{})
+//@   requires [unlocked] held[t.mutex] == 0
+//@   requires [tree] tree_ok(t) && std(t)
+//@   ensures [tree] tree_ok(t)
+//@   ensures [released] held == old(held)
+//@   modifies heap, held
+//@ func (t *Tree) Empty(topic string)
+//@   requires [unlocked] held[t.mutex] == 0
+//@   requires [tree] tree_ok(t) && std(t)
+//@   ensures [tree] tree_ok(t)
+//@   ensures [released] held == old(held)
+//@   modifies heap, held
+//@ func (t *Tree) Clear(value interface{})
+//@   requires [unlocked] held[t.mutex] == 0
+//@   requires [tree] tree_ok(t)
+//@   ensures [tree] tree_ok(t)
+//@   ensures [released] held == old(held)
+//@   modifies heap, held
+//@ func (t *Tree) Reset()
+//@   requires [unlocked] held[t.mutex] == 0
+//@   requires [tree] wf()
+//@   ensures [tree] tree_ok(t) && fresh(t.root)
+//@   ensures [released] held == old(held)
+//@   modifies t.root, isnode, held
+//@ func (t *Tree) Count() (n int)
+//@   requires [unlocked] held[t.mutex] == 0
+//@   requires [tree] tree_ok(t)
+//@   ensures [released] held == old(held)
+//@   modifies held
+//
+// Match / Search collect through a closure into a list that never shares its
+// array with a node (closure invariant), and de-duplicate that list in place:
+// the result is a snapshot.
+//@ func (t *Tree) Match(topic string) (r []interface{})
+//@   requires [unlocked] held[t.mutex] == 0
+//@   requires [tree] tree_ok(t) && std(t)
+//@   ensures [snapshot] snapshot(r)
+//@   ensures [distinct] forall i int, j int {r[i], r[j]} :: 0 <= i && i < j && j < len(r) ==> r[i] != r[j]
+//@   ensures [tree] tree_ok(t)
+//@   ensures [released] held == old(held)
+//@   modifies heap, held
+//@ func (t *Tree) Match$1(values []interface{}) (cont bool)
+//@   requires [nonempty] len(values) > 0
+//@   preserves [own] snapshot(*list)
+//@   ensures [wf] old(wf()) ==> wf()
+//@   ensures [config] forall tr *Tree {tr.root} :: tr.root == old(tr.root) && tr.separator == old(tr.separator) && tr.wildcardOne == old(tr.wildcardOne) && tr.wildcardSome == old(tr.wildcardSome)
+//@   ensures [children-kept] forall n *node {n.children} :: old(isnode[n]) ==> n.children == old(n.children)
+//@   ensures [continue] cont
+//@   modifies *list, elems((*list)[0:cap(*list)])
+//@ func (t *Tree) Search(topic string) (r []interface{})
+//@   requires [unlocked] held[t.mutex] == 0
+//@   requires [tree] tree_ok(t) && std(t)
+//@   ensures [snapshot] snapshot(r)
+//@   ensures [distinct] forall i int, j int {r[i], r[j]} :: 0 <= i && i < j && j < len(r) ==> r[i] != r[j]
+//@   ensures [tree] tree_ok(t)
+//@   ensures [released] held == old(held)
+//@   modifies heap, held
+//@ func (t *Tree) Search$1(values []interface{}) (cont bool)
+//@   requires [nonempty] len(values) > 0
+//@   preserves [own] snapshot(*list)
+//@   ensures [wf] old(wf()) ==> wf()
+//@   ensures [config] forall tr *Tree {tr.root} :: tr.root == old(tr.root) && tr.separator == old(tr.separator) && tr.wildcardOne == old(tr.wildcardOne) && tr.wildcardSome == old(tr.wildcardSome)
+//@   ensures [children-kept] forall n *node {n.children} :: old(isnode[n]) ==> n.children == old(n.children)
+//@   ensures [continue] cont
+//@   modifies *list, elems((*list)[0:cap(*list)])
+//@ func (t *Tree) MatchFirst(topic string) (v interface{})
+//@   requires [unlocked] held[t.mutex] == 0
+//@   requires [tree] tree_ok(t) && std(t)
+//@   ensures [tree] tree_ok(t)
+//@   ensures [released] held == old(held)
+//@   modifies heap, held
+//@ func (t *Tree) MatchFirst$1(values []interface{}) (cont bool)
+//@   requires [nonempty] len(values) > 0
+//@   ensures [wf] old(wf()) ==> wf()
+//@   ensures [config] forall tr *Tree {tr.root} :: tr.root == old(tr.root) && tr.separator == old(tr.separator) && tr.wildcardOne == old(tr.wildcardOne) && tr.wildcardSome == old(tr.wildcardSome)
+//@   ensures [children-kept] forall n *node {n.children} :: old(isnode[n]) ==> n.children == old(n.children)
+//@   ensures [stop] !cont
+//@   modifies *value
+//@ func (t *Tree) SearchFirst(topic string) (v interface{})
+//@   requires [unlocked] held[t.mutex] == 0
+//@   requires [tree] tree_ok(t) && std(t)
+//@   ensures [tree] tree_ok(t)
+//@   ensures [released] held == old(held)
+//@   modifies heap, held
+//@ func (t *Tree) SearchFirst$1(values []interface{}) (cont bool)
+//@   requires [nonempty] len(values) > 0
+//@   ensures [wf] old(wf()) ==> wf()
+//@   ensures [config] forall tr *Tree {tr.root} :: tr.root == old(tr.root) && tr.separator == old(tr.separator) && tr.wildcardOne == old(tr.wildcardOne) && tr.wildcardSome == old(tr.wildcardSome)
+//@   ensures [children-kept] forall n *node {n.children} :: old(isnode[n]) ==> n.children == old(n.children)
+//@   ensures [stop] !cont
+//@   modifies *value
+//@ func (t *Tree) All() (r []interface{})
+//@   requires [unlocked] held[t.mutex] == 0
+//@   requires [tree] tree_ok(t)
+//@   ensures [snapshot] snapshot(r)
+//@   ensures [distinct] forall i int, j int {r[i], r[j]} :: 0 <= i && i < j && j < len(r) ==> r[i] != r[j]
+//@   ensures [released] held == old(held)
+//@   modifies held
